@@ -160,7 +160,7 @@ def run_shard(shard, tier, seed, acc) -> None:
     elif what == "getkey":
         for sdlen in range(0, 41):
             sd = bytes((i * 3 + 1) & 0xFF for i in range(sdlen))
-            for rk in (None, UUIDS[1]):
+            for rk in (None, UUIDS[1], uuid.UUID(int=0), uuid.UUID(int=2**128 - 1)):
                 for l0, l1, l2 in itertools.product((-1, 0, 31, 2**31 - 1), repeat=3):
                     chk(acc, "GetKey", [sdlen, bool(rk), l0, l1, l2], lambda sd=sd, rk=rk, l0=l0, l1=l1, l2=l2: Gm.GetKey(sd, rk, l0, l1, l2), ndr64.getkey_request(sd, rk, l0, l1, l2), Gm.GetKey.unpack)
         # GetKey is a mutable dataclass: packing, changing a field and packing again must encode the new values
